@@ -1,4 +1,5 @@
 """C14 — the transaction pool always holds a jointly valid, fee-paying, mineable set (admission-funnel clause)."""
+import re
 from cfg import reach, return_blocks, path_locs, render
 from facts import loc, fn_loc
 
@@ -51,10 +52,22 @@ def run(c):
         f = c.F.fns[key]
         ok_edges = c.false_edges(P, r"^Result::is_err\(TransactionPool::is_acceptable\(")
         over_edges = c.true_edges(P, r"^PartialEq::eq\(Result::err\(TransactionPool::is_acceptable\(")
+        if not ok_edges and not over_edges:
+            # the same two gates spelled as one `match` on the verdict: the `Ok` arm of the switch on the result, and the `OverCapacity` arm of
+            # the switch on the error it carries (variant indices taken from the enum's definition, never from text)
+            from cfg import render as _render
+            pe = [v for k_, v in c.F.adts.items() if k_.endswith("grin_pool::types::PoolError")]
+            over_idx = next((i for i, x in enumerate(pe[0]["variants"]) if x["name"] == "OverCapacity"), None) if pe else None
+            for bi, e, arms, els in c.guards(key):
+                txt = _render(e)
+                if txt.startswith("discr(TransactionPool::is_acceptable(") and txt.endswith("))") and ".@Err" not in txt[-12:] and ".@Ok" not in txt[-12:]:
+                    ok_edges += [(bi, t2) for v, t2 in arms if str(v) == "0"]
+                elif re.match(r"^discr\(TransactionPool::is_acceptable\(.*\)\.@Err\.0\)$", txt) and over_idx is not None:
+                    over_edges += [(bi, t2) for v, t2 in arms if str(v) == str(over_idx)]
         stem_gate = c.false_edges(P, r"^arg3$")
         sinks = {bi for bi, t in c.F.calls(key) if any(n.endswith("TransactionPool::add_to_txpool") or n.endswith("TransactionPool::add_to_stempool") for n in t["names"])}
         d = "add_to_pool: admission only if is_acceptable returned Ok, or returned OverCapacity for a non-stem transaction"
-        if len(ok_edges) != 1 or len(over_edges) != 1 or not sinks:
+        if not (1 <= len(ok_edges) <= 2) or len(over_edges) != 1 or not sinks:
             c.lost("acceptability-gate", "R2", key, d, "gates found: %d ok, %d over-capacity, %d sinks" % (len(ok_edges), len(over_edges), len(sinks)))
         else:
             p = reach(f, [0], sinks, set(ok_edges + over_edges))
